@@ -331,3 +331,61 @@ def r05i(R):
                         g.short, flag, bad[0].short if bad else '', path))
     if seen < 1:
         raise AnalysisError('no enter/exit region found')
+
+
+@rule('R04.l', ('C04', 'C14'), 'a cycle range is spread over 65536 in raw '
+      'units and over 360 in every other unit mode', floor=3,
+      decides='`with v cycle [s]` gives s + k * (full turn) / n, the full '
+              'turn being 360 degrees unless the script works in raw units')
+def r04l(R):
+    A = R.A
+    lp = A.cls(LOOP, 'LoopParser')
+    f = lp.methods['_cycle_var_range']
+    members = A.cls('bardolph.controller.units', 'UnitMode').enum_members()
+    want = {m: (65536 if m == 'RAW' else 360) for m in members}
+    neutral = _stack_neutral_ops(A)
+    got = {m: set() for m in members}
+    found = False
+    for first, tmpl in T.segments(A, f):
+        if isinstance(tmpl, Exception):
+            continue
+        res = T.execute(tmpl, neutral)
+        for value, conds in res.pushes:
+            # the candidates for a "full turn": numeric literals of that size
+            if not (value[0] == 'const' and isinstance(value[1], (int, float))
+                    and not isinstance(value[1], bool) and value[1] >= 256):
+                continue
+            found = True
+            for m in members:
+                ok = True
+                for cond, truth in conds:
+                    t = _mode_truth(cond, m)
+                    if t is None:
+                        continue        # a test on something else (the count)
+                    if t != truth:
+                        ok = False
+                if ok:
+                    got[m].add(value[1])
+    if not found:
+        raise AnalysisError('_cycle_var_range: the pushed full turn was not found')
+    for m in sorted(members):
+        R.check(f, 'unit mode %s: full turn %s' % (m, sorted(got[m])),
+                got[m] == {want[m]},
+                'in unit mode %s the emitted prologue divides %s by the '
+                'number of passes; the documented full turn is %d' % (
+                    m, sorted(got[m]) or 'nothing', want[m]))
+
+
+def _mode_truth(cond, member):
+    """truth of an emitted test on the unit-mode register when the register
+    holds `member`; None when the test is about something else"""
+    if cond[0] != 'op' or len(cond) != 4 or cond[1] not in ('EQ', 'NOTEQ'):
+        return None
+    a, b = cond[2], cond[3]
+    if a[0] == 'const' and b[0] == 'loc':
+        a, b = b, a
+    if not (a[0] == 'loc' and a[1].endswith('UNIT_MODE') and b[0] == 'const'
+            and isinstance(b[1], EnumVal)):
+        return None
+    same = b[1].member == member
+    return same if cond[1] == 'EQ' else not same
